@@ -78,6 +78,15 @@ def maxArr : List Int → Int
   | [] => 0
   | x :: xs => xs.foldl max x
 
+/-- `sorted(zip(a, b), key=lambda p: -p[1])`: the pairs in descending order of the second component
+    (stable, like Python's sort), as its two component arrays -/
+def insDescSnd (p : Int × Int) : List (Int × Int) → List (Int × Int)
+  | [] => [p]
+  | q :: qs => if q.2 ≤ p.2 then p :: q :: qs else q :: insDescSnd p qs
+def sortDescSnd (a b : List Int) : List (Int × Int) := (a.zip b).foldr insDescSnd []
+def sortDescSndA (a b : List Int) : List Int := (sortDescSnd a b).map (·.1)
+def sortDescSndB (a b : List Int) : List Int := (sortDescSnd a b).map (·.2)
+
 /-- truthiness of an integer (`while possible_steps:`) -/
 def truthy (x : Int) : Bool := x != 0
 
